@@ -54,7 +54,7 @@ def run_models(out, tier, seed):
         out.judge({"clause": "XformStmtsModel"}, {"tlc": r.out[-2500:]})
     sigs = sorted(t[1] for t in r.tagged("SIGNATURE"))
     out.extra["xformstmts_signatures"] = sigs
-    unexpected = [x for x in sigs if x not in ("DeclaredOnlySupplied", "FallOffNoValue")]
+    unexpected = [x for x in sigs if x not in ("DeclaredOnlySupplied",)]
     if unexpected:
         out.drift.append(f"XformStmts derives difference classes that are not recorded findings: {unexpected}")
     # the assignment shapes for real: single-variable probes, the stream against Python's binding history (TraceXformMech)
